@@ -52,7 +52,7 @@ def uniq(l):
     return out
 
 
-def modes_q(impl, m, klen, length, do_ref, s_lo, s_hi, tier="quick", backend=None, timeout=None, keycheck=None):
+def modes_q(impl, m, klen, length, do_ref, s_lo, s_hi, tier="quick", backend=None, timeout=None, keycheck=None, config="host"):
     (mname, fsuf, rsuf, mode, _) = m
     bs = 16 if impl.startswith("aes") else 8
     modefile = SC + "%s_%s.c" % (impl, fsuf)
@@ -70,7 +70,9 @@ def modes_q(impl, m, klen, length, do_ref, s_lo, s_hi, tier="quick", backend=Non
         d.append("br_%s_%s == textbook mode (SP 800-38A CBC/CTR, CBC-MAC) over the block function for every %d-byte key, IV/counter (32-bit wrap / 128-bit carries incl.), MAC state and %d data bytes, in place, final chaining state incl." % (impl, rsuf, klen, length))
     if s_lo <= s_hi:
         d.append("br_%s_%s: run(d,%d) == run(d,S);run(d+S,%d-S) with the chaining state carried, S in %d..%d step %d" % (impl, rsuf, length, length, s_lo, s_hi, bs))
-    return Q("modes-%s-%s-K%d-L%d-%s" % (impl, mname, klen, length, "+".join(what)), "C12_modes.c",
+    if config != "host":
+        what.append(config)
+    return Q("modes-%s-%s-K%d-L%d-%s" % (impl, mname, klen, length, "+".join(what)), "C12_modes.c", config=config,
              units=UF_UNITS[impl] + [modefile],
              native_units=uniq(REAL_UNITS[impl] + NATIVE_REF[bs] + [modefile]),
              defs=["-DIMPLK=%d" % IMPLK[impl], "-DMODE=%d" % mode, "-DKEYS_T=br_%s_%s_keys" % (impl, fsuf),
@@ -207,6 +209,11 @@ def ghash_poly_queries():
         qs.append(Q("ghash-structure-%s" % GN[a], "C12_ghash.c", units=[G[a]],
                     defs=["-DWHAT=3", "-DIMPL_A=%d" % a, "-DLEN=21"], unwind=40, backend="cvc5",
                     desc="br_ghash_%s: short final block (21 bytes) processed as zero-padded; ghash over 32 bytes == two 16-byte calls with y carried; zero-length call is a no-op; real multiplication code, every y, h, data" % GN[a]))
+    for a in (1, 2, 3):
+        for lo in (0, 32, 64, 96):
+            qs.append(Q("ghash-units-%s-I%d-%d" % (GN[a], lo, lo + 31), "C12_ghash.c", units=[G[a]],
+                        defs=["-DWHAT=4", "-DIMPL_A=%d" % a, "-DI_LO=%d" % lo, "-DI_HI=%d" % (lo + 31)], unwind=130,
+                        desc="br_ghash_%s == bitwise GF(2^128) reference (SP 800-38D 6.3) when one operand is the unit vector e_i, i in %d..%d, and the other operand is arbitrary (both orders: x=e_i with every h; h=e_i with every x)" % (GN[a], lo, lo + 31)))
     P = {1: [SC + "poly1305_ctmul.c"], 2: [SC + "poly1305_ctmul32.c"],
          3: [SC + "poly1305_i15.c", "src/int/i15_decmod.c", "src/int/i15_add.c", "src/int/i15_montmul.c", "src/int/i15_sub.c", "src/int/i15_encode.c"]}
     PN = {1: "ctmul", 2: "ctmul32", 3: "i15"}
